@@ -45,6 +45,7 @@ def showACall : ACall → String
   | .updatePolicies s os ns => s!"update_policies/{secStr s}/{encRules os}/{encRules ns}"
   | .savePolicy => "save_policy"
   | .loadPolicy => "load_policy"
+  | .updateFiltered ns i vs => s!"update_filtered_policies/p/{encRules ns}/{i}/{encStrList vs}"
 
 def showWCall : WCall → String
   | .update => "update"
@@ -166,10 +167,13 @@ def step (d : DSt) (fs : List String) : DSt × String :=
       | ["removeread", sec] => (secOf sec).map fun sc => .removeMany sc (d.st.pol.get sc)
       | ["updateread", tag] => some (.updateMany d.st.pol.p (d.st.pol.p.map fun r => r.dropLast ++ [r.getLast?.getD "" ++ tag]))
       | _ => parseOp rest
-    match op? with
+    let opx? : Option OpX := match rest with
+      | ["updatefiltered", ns, idx, vals] => do some (.updateFiltered (← decRules ns) (← idx.toNat?) (← decStrList vals))
+      | _ => op?.map .base
+    match opx? with
     | none => (d, "bad-op")
     | some op =>
-      let (s', r) := Casbin.Enf.step d.cfg d.st op
+      let (s', r) := Casbin.Enf.stepX d.cfg d.st op
       let da := s'.alog.drop d.st.alog.length
       let dw := s'.wlog.drop d.st.wlog.length
       ({ d with st := s' }, "model=" ++ showRet r ++ "#" ++ joinC (da.map showACall) ++ "#" ++ joinC (dw.map showWCall))
